@@ -353,6 +353,9 @@ fn main() {
             0
         }
         "replay" => {
+            if args.len() < 3 {
+                usage();
+            }
             let file: serde_json::Value = match std::fs::read(&args[2]).ok().and_then(|b| serde_json::from_slice(&b).ok()) {
                 Some(v) => v,
                 None => {
